@@ -19,16 +19,17 @@ void __sanitizer_set_death_callback(void (*)(void)) __attribute__((weak));
 }
 
 static uint64_t g_cur_seed = 0;
+static long g_cur_sub = -1;
 static std::string g_cur_prof;
 static void death_cb() {
   char b[128];
-  int n = snprintf(b, sizeof b, "\nSIM-DIED profile=%s seed=%llu\n", g_cur_prof.c_str(), (unsigned long long)g_cur_seed);
+  int n = snprintf(b, sizeof b, "\nSIM-DIED profile=%s seed=%llu sub=%ld\n", g_cur_prof.c_str(), (unsigned long long)g_cur_seed, g_cur_sub);
   if (write(2, b, (size_t)n) < 0) {}
   fflush(stdout);
 }
 static void on_alarm(int) {
   char b[128];
-  int n = snprintf(b, sizeof b, "\nSIM-WATCHDOG profile=%s seed=%llu\n", g_cur_prof.c_str(), (unsigned long long)g_cur_seed);
+  int n = snprintf(b, sizeof b, "\nSIM-WATCHDOG profile=%s seed=%llu sub=%ld\n", g_cur_prof.c_str(), (unsigned long long)g_cur_seed, g_cur_sub);
   if (write(2, b, (size_t)n) < 0) {}
   _exit(2);
 }
@@ -85,10 +86,12 @@ static std::string hex64(uint64_t v) { char b[20]; snprintf(b, sizeof b, "%016ll
 
 int run_mode_b(const RunCfg &cfg, const std::vector<Step> &plan, const std::vector<int> *decisions, std::string &line_out);
 
-static void one_run(const std::string &prof, uint64_t seed, const JV *replay, Agg &agg, bool print_plan, bool verbose) {
-  g_cur_seed = seed; g_cur_prof = prof;
+static long g_sub_from = 0, g_max_subs = 0;
+static long one_run(const std::string &prof, uint64_t seed, const JV *replay, Agg &agg, bool print_plan, bool verbose, long sub = -1) {
+  g_cur_seed = seed; g_cur_prof = prof; g_cur_sub = sub;
   RunCfg cfg;
   profile_make_cfg(prof, seed, cfg);
+  if (sub > 0) cfg.knobs["fail_at"] = sub;
   std::vector<Step> plan;
   if (replay) {
     if (const JV *cj = replay->get("cfg")) cfg.load(*cj);
@@ -105,7 +108,7 @@ static void one_run(const std::string &prof, uint64_t seed, const JV *replay, Ag
     if (replay) { const JV *d = replay->get("decisions"); if (d && d->t == JV::ARR) { for (auto &e : d->a) dec.push_back((int)e.i); have = true; } }
     std::string line;
     run_mode_b(cfg, plan, have ? &dec : nullptr, line);   // never returns normally (prints and exits)
-    return;
+    return 0;
   }
   alarm(120);
   if (prof == "C20") {
@@ -133,7 +136,9 @@ static void one_run(const std::string &prof, uint64_t seed, const JV *replay, Ag
   agg.stat[std::string("sockfuncs.") + std::to_string(cfg.sockfuncs)]++;
   if (!cfg.faults) agg.stat["runs_faults_off"]++;
   JW j; j.obj();
-  j.kv("seed", seed).kv("trace", hex64(W.trace_hash)).kv("shape", hex64(W.shape_hash)).kv("nt", nt).kv("steps", (int64_t)run.steps_done).kv("reqs", (int64_t)run.reqs.size());
+  j.kv("seed", seed);
+  if (cfg.knob("fail_at", -1) > 0) j.kv("sub", cfg.knob("fail_at"));
+  j.kv("trace", hex64(W.trace_hash)).kv("shape", hex64(W.shape_hash)).kv("nt", nt).kv("steps", (int64_t)run.steps_done).kv("reqs", (int64_t)run.reqs.size());
   j.kv("txs", (int64_t)W.txs.size()).kv("vt_us", W.now_us - cfg.t0_us);
   j.key("viol").arr();
   for (auto &v : run.viol) { j.obj().kv("prop", v.prop).kv("oracle", v.oracle).kv("detail", v.detail).end_obj(); agg.violations++; }
@@ -163,6 +168,35 @@ static void one_run(const std::string &prof, uint64_t seed, const JV *replay, Ag
     agg.samples.push_back(s.s);
   }
   fflush(stdout);
+  auto it = run.probe.find("alloc_calls");
+  return it == run.probe.end() ? 0 : (long)it->second;
+}
+
+// C14: one scenario = reference execution (counts N allocator calls) + one execution per failing index
+static void enumerate_scenario(const std::string &prof, uint64_t seed, Agg &agg, bool verbose) {
+  long n_alloc = 0;
+  if (g_sub_from <= 0) n_alloc = one_run(prof, seed, nullptr, agg, false, verbose, -1);
+  else {
+    // resuming after a death: the count comes from a silent reference execution
+    Agg tmp; FILE *keep = stdout; (void)keep;
+    RunCfg cfg; profile_make_cfg(prof, seed, cfg);
+    std::vector<Step> plan; profile_make_plan(cfg, plan);
+    Run ref(cfg); ref.plan = plan; profile_attach(ref); ref.execute();
+    auto it = ref.probe.find("alloc_calls"); n_alloc = it == ref.probe.end() ? 0 : (long)it->second;
+  }
+  std::vector<long> subs;
+  if (g_max_subs > 0 && n_alloc > g_max_subs) {
+    // evenly spread, offset by the seed so that different scenarios sample different residues
+    double stepf = (double)n_alloc / (double)g_max_subs;
+    double off = (double)(seed % 97) / 97.0 * stepf;
+    long last = 0;
+    for (long k = 0; k < g_max_subs; k++) { long n = 1 + (long)(off + (double)k * stepf); if (n > n_alloc) n = n_alloc; if (n != last) subs.push_back(n); last = n; }
+  } else for (long n = 1; n <= n_alloc; n++) subs.push_back(n);
+  for (long n : subs) { if (n < g_sub_from) continue; one_run(prof, seed, nullptr, agg, false, verbose, n); }
+  agg.stat["enum.scenarios"]++;
+  agg.stat["enum.alloc_calls_in_reference"] += n_alloc;
+  agg.stat["enum.failing_indices_run"] += (int64_t)subs.size();
+  if ((long)subs.size() == n_alloc) agg.stat["enum.scenarios_exhaustive"]++;
 }
 
 int main(int argc, char **argv) {
@@ -179,6 +213,8 @@ int main(int argc, char **argv) {
     else if (a == "--print-plan") print_plan = true;
     else if (a == "--plan-only") { print_plan = true; plan_only = true; }
     else if (a == "--verbose") verbose = true;
+    else if (a == "--sub-from") g_sub_from = atol(nxt().c_str());
+    else if (a == "--max-subs") g_max_subs = atol(nxt().c_str());
     else { fprintf(stderr, "unknown arg %s\n", a.c_str()); return 2; }
   }
   if (__sanitizer_set_death_callback) __sanitizer_set_death_callback(death_cb);
@@ -204,7 +240,10 @@ int main(int argc, char **argv) {
       printf("PLAN {\"profile\":\"%s\",\"seed\":%llu,\"cfg_overrides\":{},\"steps\":%s,\"cfg\":%s}\n", prof.c_str(), (unsigned long long)start, plan_json(plan).c_str(), cfg.dump().c_str());
       return 0;
     }
-    for (long k = 0; k < count; k++) one_run(prof, start + (uint64_t)k, nullptr, agg, print_plan, verbose);
+    for (long k = 0; k < count; k++) {
+      if (prof == "C14") { enumerate_scenario(prof, start + (uint64_t)k, agg, verbose); g_sub_from = 0; }
+      else one_run(prof, start + (uint64_t)k, nullptr, agg, print_plan, verbose);
+    }
   }
   struct timespec t1; clock_gettime(CLOCK_MONOTONIC, &t1);
   double wall = (double)(t1.tv_sec - t0.tv_sec) + (double)(t1.tv_nsec - t0.tv_nsec) / 1e9;
